@@ -387,6 +387,35 @@ fn pkh_psbt(w: &RWorld, u: usize, form: usize, wrap: usize, in_bip32: bool) -> O
     Some(psbt.serialize())
 }
 
+/// DIRECTED class (independent tester's finding): p2wsh input, witness script = the encoding of a
+/// SAT_RAWPKH_SHAPES script (the raw key hash is of no key the input knows), signatures per mask
+fn rawpkh_psbt(w: &RWorld, shape: usize, mask: u32) -> Option<Vec<u8>> {
+    let ds = DummySat { w, keys: !0, pre: !0, lt: 0, seq: 0, big: vec![] };
+    let text = sat_rawpkh_text(w, SAT_RAWPKH_SHAPES[shape], false);
+    let ms = Miniscript::<bitcoin::PublicKey, Segwitv0>::from_str_with_validation_params(&text, &Segwitv0::CONSENSUS).ok()?;
+    let script = ms.encode();
+    let mut inp = bitcoin::psbt::Input::default();
+    inp.witness_script = Some(script.clone());
+    let spk = script.to_p2wsh();
+    for i in 0..4 {
+        if mask & (1 << i) != 0 {
+            inp.partial_sigs.insert(w.w.pks[i], ds.ecdsa());
+        }
+    }
+    let prev = prev_tx(&spk, 0, 1, 12);
+    inp.witness_utxo = Some(prev.output[0].clone());
+    inp.non_witness_utxo = Some(prev.clone());
+    let tx = Transaction {
+        version: bitcoin::transaction::Version::TWO,
+        lock_time: absolute::LockTime::ZERO,
+        input: vec![TxIn { previous_output: OutPoint { txid: prev.compute_txid(), vout: 0 }, script_sig: ScriptBuf::new(), sequence: Sequence::from_consensus(0xffff_fffd), witness: Witness::new() }],
+        output: vec![TxOut { value: Amount::from_sat(1000), script_pubkey: ScriptBuf::from_bytes(vec![0x51]) }],
+    };
+    let mut psbt = Psbt::from_unsigned_tx(tx).ok()?;
+    psbt.inputs[0] = inp;
+    Some(psbt.serialize())
+}
+
 /// one-input PSBT spending p2wsh(script) / p2tr(leaf = script) whose input is ALREADY finalized
 /// with `stack ++ [script (, control block)]`: PsbtExt::extract interprets it
 fn short_psbt(w: &RWorld, sc: &[u8], stack: Vec<Vec<u8>>, tap: bool) -> Option<Vec<u8>> {
@@ -486,6 +515,17 @@ pub fn g_psbt(w: &RWorld, rng: &mut Rng, _idx: u64) -> (Input, &'static str) {
         let (sc, label) = num_script(w, if tap { 3 } else { 2 }, j % N_NUM_SCRIPTS);
         if let Some(b) = script_psbt(w, &sc, tap) {
             return (Input::Psbt { psbt: b, idx: 0, desc: String::new() }, label);
+        }
+    }
+    // a p2wsh input whose witness script decodes with a raw key hash NO field of the input resolves,
+    // next to and_v(v:pk(A),pk(B)) under or_i, as the `d` child of or_d / or_c / or_b / thresh / andor;
+    // partial_sigs per mask (see SAT_RAWPKH_SHAPES)
+    let rp_base = num_base + 2 * N_NUM_SCRIPTS as u64;
+    let n_rp = (SAT_RAWPKH_SHAPES.len() * SAT_RAWPKH_MASKS.len()) as u64;
+    if _idx >= rp_base && _idx < rp_base + n_rp {
+        let j = (_idx - rp_base) as usize;
+        if let Some(b) = rawpkh_psbt(w, j % SAT_RAWPKH_SHAPES.len(), SAT_RAWPKH_MASKS[j / SAT_RAWPKH_SHAPES.len()]) {
+            return (Input::Psbt { psbt: b, idx: 0, desc: String::new() }, "rawpkh-unresolved-under-d-child");
         }
     }
     if _idx == N_PSBT_DEEP {
